@@ -3,8 +3,6 @@
 
 package depend
 
-import "fmt"
-
 
 type UserEnteredDependencies struct {
 	Atoms []*DependAtom
@@ -19,7 +17,9 @@ func NewUserEnteredDependencies() *UserEnteredDependencies {
 
 func (ued *UserEnteredDependencies) Add(atomString string) error {
 	if _, hit := ued.amap[atomString]; hit {
-		return fmt.Errorf("duplicate entry for atom %s", atomString)
+		// Already entered: harmless (profiles reached through more than one
+		// parent chain, or the same atom listed twice)
+		return nil
 	}
 	da, err := NewDependencyAtom(atomString)
 	if err != nil {
